@@ -23,6 +23,9 @@ pub struct Case {
     pub cmask: u32,
     pub seed: u32,
     pub all_bits: bool,
+    /// size sweep: whole-scalar edits at sampled chunk positions only
+    #[serde(default)]
+    pub light: bool,
 }
 
 fn strat() -> impl Strategy<Value = Case> {
@@ -48,6 +51,7 @@ fn strat() -> impl Strategy<Value = Case> {
             cmask,
             seed,
             all_bits: false,
+            light: false,
         })
 }
 
@@ -165,7 +169,8 @@ fn check_one<CS: BbsCiphersuite>(rep: &Report, ck: &str, c: &Case) -> CheckResul
     }
     // whole-scalar truncations / extensions at every position (the empty string means "no commitment")
     let chunks = (cb.len() - 48) / 32;
-    for pos in 0..chunks {
+    let chunk_positions: Vec<usize> = if c.light && chunks > 6 { vec![0, 1, chunks / 2, chunks - 2, chunks - 1] } else { (0..chunks).collect() };
+    for pos in chunk_positions {
         let off = 48 + 32 * pos;
         let mut rm = cb.clone();
         rm.drain(off..off + 32);
@@ -269,8 +274,8 @@ fn check_one<CS: BbsCiphersuite>(rep: &Report, ck: &str, c: &Case) -> CheckResul
     }
 
     // ---- group 3: blind_proof_verify edits -----------------------------------------------------
-    let di = mask_to_indexes(c.mask & ((1u32 << l) - 1), l);
-    let dci = mask_to_indexes(c.cmask & ((1u32 << m) - 1), m);
+    let di = mask_idx(c.mask, l);
+    let dci = mask_idx(c.cmask, m);
     let dm: Vec<Vec<u8>> = di.iter().map(|&i| msgs[i].clone()).collect();
     let dcm: Vec<Vec<u8>> = dci.iter().map(|&j| cm[j].clone()).collect();
     let proof = PoKSignature::<BBSplus<CS>>::blind_proof_gen(pk, &bsig.to_bytes(), hdr, phd, Some(&msgs), Some(&cm), Some(&di), Some(&dci), Some(&bf))
@@ -411,13 +416,45 @@ fn all_bits_cases(seed: u64, tier: Tier) -> Vec<Case> {
                 cmask: 1,
                 seed: splitmix(&mut st) as u32,
                 all_bits: true,
+                light: false,
             });
         }
     }
     out
 }
 
+/// every committed-message count in a contiguous range ("magic size" defects), light catalogue
+fn sweep_cases(seed: u64, ms: impl Iterator<Item = usize>) -> Vec<Case> {
+    let mut st = seed ^ 0x5EE6;
+    ms.enumerate()
+        .map(|(k, m)| {
+            let mk = |n: usize, st: &mut u64| MsgVec { items: (0..n).map(|j| BSpec { len: [5usize, 0, 32][j % 3], class: 0, seed: splitmix(st) as u32 }).collect() };
+            Case {
+                suite: if (k + seed as usize) % 2 == 0 { SuiteId::Sha256 } else { SuiteId::Shake256 },
+                key: KeySpec { fixture: false, ikm: BSpec { len: 32, class: 0, seed: splitmix(&mut st) as u32 }, key_info: OptBytes::None, key_dst: OptBytes::None },
+                header: [OptBytes::None, OptBytes::Bytes(BSpec { len: 16, class: 0, seed: 3 })][k % 2].clone(),
+                ph: OptBytes::None,
+                msgs: mk(k % 3, &mut st),
+                committed: mk(m, &mut st),
+                mask: splitmix(&mut st) as u32,
+                cmask: splitmix(&mut st) as u32,
+                seed: splitmix(&mut st) as u32,
+                all_bits: false,
+                light: true,
+            }
+        })
+        .collect()
+}
+
 pub fn run(ctx: &Ctx, rep: &Report) -> Meta {
+    let sweep = match ctx.tier {
+        Tier::Quick => sweep_cases(ctx.seed, (4..=40).chain([63, 64, 65])),
+        Tier::Thorough => sweep_cases(ctx.seed, (4..=130).chain([255, 256, 257])),
+    };
+    par_items(ctx, rep, "size-sweep", &sweep, |c| check(rep, "size-sweep", c));
+    if !rep.aborted() {
+        rep.exhaustive(format!("every committed-message count M in {} with the sampled catalogue", ctx.tier.pick("4..=40 and 63..65", "4..=130 and 255..257")));
+    }
     let ab = all_bits_cases(ctx.seed, ctx.tier);
     par_items(ctx, rep, "all-bit-flips", &ab, |c| check(rep, "all-bit-flips", c));
     run_cases(ctx, rep, "edits", ctx.tier.pick(96, 1000), 100, strat, |c| check(rep, "edits", c));
